@@ -127,6 +127,8 @@ class Interp:
         self.keep = []              # keeps objects alive so that ids stay unique during a path
         self.cur_model = None
         self.cur_model_key = None
+        self.elem_n = 0
+        self.loop_n = 0
         self.path_history = []      # earlier calls a path assumes (cache hits): replayed natively as a prelude
         self.defs = []              # definitional constraints of fresh variables (digits of a term ...)
         self.fresh_n = 0
